@@ -14,9 +14,14 @@ const MACROS: &[(&str, &str)] = &[
     ("unless", "(define-syntax unless (syntax-rules () ((unless c e) (if c e #f))))"),
     ("cond", "(define-syntax cond (syntax-rules () ((cond a) (quote replaced))))"),
     ("let", "(define-syntax let (syntax-rules () ((let a b) (quote replaced-let))))"),
+    ("my-list", "(define-syntax my-list (syntax-rules () ((my-list x ...) (list x ...))))"),
 ];
-const MACRO_USES: &[&str] = &["(sq 3)", "(twice 4)", "(my-or #f 5)", "(unless #f 6 7)", "(cond (#f 1) (else 2))", "(let ((q 1)) q)", "(cond 9)"];
-const FAILING: &[&str] = &["(car '())", "(undefined-procedure 1)", "(vector-ref (vector) 0)", ")", "(1 2", "(define)", "(import (no such library))", "(/ 1 0)"];
+const MACRO_USES: &[&str] = &["(my-list 1 2 3)", "(my-list)", "(sq 3)", "(twice 4)", "(my-or #f 5)", "(unless #f 6 7)", "(cond (#f 1) (else 2))", "(let ((q 1)) q)", "(cond 9)"];
+const FAILING: &[&str] = &[
+    // a syntax-rules form with a custom ellipsis, in a spelling this parser rejects
+    "(define-syntax cm (syntax-rules ::: () ((_ x :::) (list x :::))))",
+    "(define-syntax cm2 (syntax-rules ::: () ((cm2 (x :::) :::) (quote (x ::: :::)))))",
+    "(car '())", "(undefined-procedure 1)", "(vector-ref (vector) 0)", ")", "(1 2", "(define)", "(import (no such library))", "(/ 1 0)"];
 
 fn shared_lib_name() -> LibraryName {
     LibraryName(vec![LibraryNameElement::Identifier("shared".into()), LibraryNameElement::Identifier("lib".into())])
@@ -97,7 +102,27 @@ pub fn gen_pair(ch: &mut Chooser) -> Pair {
     let (mut ia, mut ib) = (0, 0);
     let mut schedule = vec![];
     // scripted openings: the situations in which per-thread or per-process state would be confused
-    match ch.below(8) {
+    match ch.below(10) {
+        8 => {
+            // A and B each run a program file of their own; both directories hold a library of the same name
+            a.insert(0, "@file".to_string());
+            b.insert(0, "@file".to_string());
+            schedule.extend([true, false]);
+            ia = 1;
+            ib = 1;
+            labels.push("a-runs-a-program-file");
+            labels.push("b-runs-a-program-file");
+        }
+        9 => {
+            // a define-syntax that A's parser rejects, then B defines and uses an ordinary ellipsis macro
+            a.insert(0, FAILING[ch.below(2)].to_string());
+            b.splice(0..0, [MACROS[7].1.to_string(), "(my-list 1 2 3)".to_string()]);
+            schedule.extend([true, false, false]);
+            ia = 1;
+            ib = 2;
+            labels.push("a-fails");
+            labels.push("b-defines-syntax");
+        }
         0 => {
             // both instances define the same keyword with different meanings, then submit the identical use
             let (first, second) = if ch.chance(1, 2) { (0, 1) } else { (1, 0) };
@@ -176,6 +201,17 @@ fn new_instance(lib_value: i32, macro_def: Option<&str>) -> Result<Session, (Str
     Ok(s)
 }
 
+/// `@file`: the instance runs a program file from a directory of its own that holds a library (onlya util)
+fn run_file_step(s: &mut Session, who: &str, answer: i32) -> Outcome {
+    let dir = std::env::temp_dir().join(format!("rv-c19-{}-{:?}-{}", std::process::id(), std::thread::current().id(), who));
+    let _ = std::fs::create_dir_all(dir.join("onlya"));
+    let _ = std::fs::write(dir.join("onlya/util.sld"), format!("(define-library (onlya util) (export answer) (begin (define answer {})))\n", answer));
+    let _ = std::fs::write(dir.join("main.scm"), "(import (scheme base) (onlya util))\n(+ answer 1)\n");
+    let o = s.eval_file(&dir.join("main.scm"));
+    let _ = std::fs::remove_dir_all(&dir);
+    o
+}
+
 fn same(a: &Outcome, b: &Outcome) -> bool {
     match (a, b) {
         (Outcome::Value(x), Outcome::Value(y)) => x.equiv(y),
@@ -192,7 +228,7 @@ fn run_alone(b: Vec<String>) -> Vec<Outcome> {
             Ok(s) => s,
             Err((site, msg)) => return vec![Outcome::Panic { site, msg }],
         };
-        b.iter().map(|f| s.eval(f)).collect()
+        b.iter().map(|f| if f == "@file" { run_file_step(&mut s, "b", 7) } else { s.eval(f) }).collect()
     })
 }
 
@@ -239,17 +275,13 @@ fn run_interleaved(p: Pair, skip_a_syntax: bool) -> Interleaved {
                     continue;
                 }
                 if f == "@file" {
-                    let dir = std::env::temp_dir().join(format!("rv-c19-{}-{:?}", std::process::id(), std::thread::current().id()));
-                    let _ = std::fs::create_dir_all(dir.join("onlya"));
-                    let _ = std::fs::write(dir.join("onlya/util.sld"), "(define-library (onlya util) (export answer) (begin (define answer 42)))\n");
-                    let _ = std::fs::write(dir.join("main.scm"), "(import (scheme base) (onlya util))\n(+ answer 1)\n");
-                    let _ = sa.eval_file(&dir.join("main.scm"));
-                    let _ = std::fs::remove_dir_all(&dir);
+                    let _ = run_file_step(&mut sa, "a", 42);
                     continue;
                 }
                 let _ = sa.eval(f);
             } else {
-                out.b.push(sb.eval(&p.b[ib]));
+                let f = &p.b[ib];
+                out.b.push(if f == "@file" { run_file_step(&mut sb, "b", 7) } else { sb.eval(f) });
                 ib += 1;
             }
         }
@@ -282,7 +314,7 @@ pub fn judge(p: &Pair) -> Report {
     }
     rep.note = inter.b.iter().map(|o| o.show()).collect::<Vec<_>>().join(" | ");
     if rep.note.len() > 600 {
-        rep.note.truncate(600);
+        crate::sut::truncate_chars(&mut rep.note, 600);
     }
     for f in &inter.instance_failures {
         let sig = if p.a.iter().any(|x| x.starts_with("(define-syntax")) || p.b.iter().any(|x| x.starts_with("(define-syntax")) {
@@ -327,6 +359,6 @@ pub fn run(ctx: &Ctx) {
          per-form outcomes in the interleaving equal B's outcomes when run alone in a fresh thread; creating an instance \
          never fails. Non-trivial = A defines something and B has >= 2 forms.",
     );
-    let cases = ctx.tier.pick(3_000, 30_000);
+    let cases = ctx.tier.pick(8_000, 40_000);
     ctx.random("pairs", cases, 500, |ch| judge(&gen_pair(ch)));
 }
